@@ -55,10 +55,12 @@ def check(ctx):
     ev = ctx.exec('jacobian', cases)
     ctx.validate('Trace_Jacobian', ev, cases, 'jacobian', nontrivial=nt, key=key)
     ctx.exhaustive_parts.append('all 36 shapes 1..6 x 1..6 for both element types, affine (exact) and smooth (units); every k = 4..26')
-    ctx.notes.append('calibration (unchanged tree, 20 seeds at thorough size): worst smooth-map error 0.0625 units (a-priori theorem guard, 1 unit); restore discipline: far = 1, dunits <= 1 throughout')
+    ctx.notes.append('calibration (unchanged tree, 20 seeds at thorough size): worst smooth-map error 0.0625 units, worst x^2 tight-oracle error 0.233 units real / 0.125 complex (a-priori theorem guards, 1 unit); restore discipline: far = 1, dunits <= 1 throughout')
     ctx.assumptions.append('smooth-map bound assumes |x_j| <= 4 (+delta), delta <= 1/16 and coefficient magnitudes <= 2 (the generated range)')
     return ctx.finish(
         rule='cases: (i) every TLC-enumerated affine problem, (ii) per shape (m,n) in 1..6^2 and element type: affine dyadic maps with delta = 2^-k cycling through k = 4..26, '
-             '(iii) smooth maps with delta = 1e-8 / 2^-k. One event per call; every event is non-trivial (n >= 1 coordinates perturbed); wide (m < n), tall and square shapes all occur; '
+             '(iii) smooth maps with delta = 1e-8 / 2^-k; (iv) non-affine maps f_i = +-x_p^2 on dyadic data with exact squares (shapes 1x1, 1xn, nx1 and others, all k): entry = +-(2x+delta) EXACTLY (a central stencil or another step is a different integer); '
+             '(v) the same maps at general points with delta = 1e-8: tight oracle against the double-double forward quotient of the evaluated points in units of 4 eps|f|/delta (complex 12), half of the points within [-0.1,0.1] where 2x differs from 2x+delta by more than a unit; '
+             'special points cycle through every family: exact +0.0/-0.0 coordinates, all negative, all equal, maps that ignore some variables (perturbing them leaves f bit-for-bit unchanged). One event per call; every event is non-trivial (n >= 1 coordinates perturbed); wide (m < n), tall and square shapes all occur; '
              'distinct = distinct (problem, points, result) tuples.',
         trusted=['harness closures (jacobian.rs): record the argument, evaluate the map', 'scaling of exact dyadic floats to integers (BAD when not exact)', 'TLC', 'Jacobian.tla operators'])
